@@ -421,6 +421,70 @@ Definition destroy_entry (w : world) (l : iloc) : world :=
 (* the caller's variables: root number r belongs to document r / 10 *)
 Definition root_ok (a r : nat) : bool := Nat.eqb (Nat.div r 10) a.
 
+(* ---------------------------------------------------------------- observation: QPDFObjectHandle::unparse *)
+Definition s_null : list N := [110; 117; 108; 108].
+Definition s_true : list N := [116; 114; 117; 101].
+Definition s_false : list N := [102; 97; 108; 115; 101].
+Definition s_ref (og : N) : list N := dec_of_N og ++ [32; 48; 32; 82].     (* "<og> 0 R" *)
+
+Fixpoint concat_opt (l : list (option (list N))) : option (list N) :=
+  match l with
+  | [] => Some []
+  | None :: _ => None
+  | Some x :: t => match concat_opt t with Some y => Some (x ++ y) | None => None end
+  end.
+
+Fixpoint null_run (n : nat) : list N := match n with O => [] | S m => s_null ++ [32] ++ null_run m end.
+
+(* sparse array: holes print as "null " *)
+Fixpoint sparse_parts (pr : iloc -> option (list N)) (els : list (nat * iloc)) (next size : nat) : list (option (list N)) :=
+  match els with
+  | [] => [Some (null_run (size - next))]
+  | (k, e) :: t => Some (null_run (k - next)) :: (match pr e with Some s => Some (s ++ [32]) | None => None end)
+                   :: sparse_parts pr t (S k) size
+  end.
+
+(* None = the call throws std::logic_error (reserved / destroyed object) *)
+Fixpoint unparse_res (fuel : nat) (w : world) (l : iloc) : option (list N) :=
+  match fuel with
+  | O => None
+  | S f =>
+    let item e := if cog w e =? 0 then unparse_res f w e else Some (s_ref (cog w e)) in
+    match cval w l with
+    | HNull => Some s_null
+    | HBool b => Some (if b then s_true else s_false)
+    | HInt z => Some (dec_of_Z z)
+    | HName k => Some [47; k]
+    | HArr els =>
+      match concat_opt (map (fun e => match item e with Some s => Some (s ++ [32]) | None => None end) els) with
+      | Some s => Some ([91; 32] ++ s ++ [93])
+      | None => None
+      end
+    | HSparse sz els =>
+      match concat_opt (sparse_parts item els O sz) with
+      | Some s => Some ([91; 32] ++ s ++ [93])
+      | None => None
+      end
+    | HDict items =>
+      match concat_opt (map (fun kv => if is_null_h w (snd kv) then Some []
+                                       else match item (snd kv) with
+                                            | Some s => Some ([47; fst kv; 32] ++ s ++ [32])
+                                            | None => None
+                                            end) items) with
+      | Some s => Some ([60; 60; 32] ++ s ++ [62; 62])
+      | None => None
+      end
+    | HRef _ => Some (s_ref (cog w l))
+    | HReserved => None
+    | HDestroyed => None
+    end
+  end.
+
+Definition unp_fuel : nat := 16.
+
+Definition json_unwritable (w : world) (cache : list (N * iloc)) : bool :=
+  existsb (fun e => (3 <=? fst e) && match unparse_res unp_fuel w (snd e) with None => true | Some _ => false end) cache.
+
 Definition step (sh : bool) (a : nat) (w : world) (op : iop) : world * ires :=
   match op with
   | OpNewDoc => if Nat.eqb a (length (w_docs w)) then (mkWorld (w_stat w) (w_docs w ++ [new_docv a]), ROk) else (w, RSkip)
@@ -563,75 +627,18 @@ Definition step (sh : bool) (a : nat) (w : world) (op : iop) : world * ires :=
     | Some dv =>
       if dv_alive dv then
         (* Objects::newIndirect -> setDefaultDescription(&qpdf, og) for every entry of obj_cache, in key order *)
-        (fold_left (fun wa e => match hget wa (snd e) with
-                                | Some c => hset wa (snd e) (mkCell (c_val c) (Some a) (fst e))
-                                | None => wa
-                                end) (dv_cache dv) w, ROk)
+        let w1 := fold_left (fun wa e => match hget wa (snd e) with
+                                         | Some c => hset wa (snd e) (mkCell (c_val c) (Some a) (fst e))
+                                         | None => wa
+                                         end) (dv_cache dv) w in
+        (* ... then every object is written; a destroyed / reserved object cannot be (std::logic_error) *)
+        (w1, if json_unwritable w1 (dv_cache dv) then RLogic else ROk)
       else (w, RSkip)
     | None => (w, RSkip)
     end
   end.
 
-(* ---------------------------------------------------------------- observation: QPDFObjectHandle::unparse *)
-Definition s_null : list N := [110; 117; 108; 108].
-Definition s_true : list N := [116; 114; 117; 101].
-Definition s_false : list N := [102; 97; 108; 115; 101].
-Definition s_ref (og : N) : list N := dec_of_N og ++ [32; 48; 32; 82].     (* "<og> 0 R" *)
-
-Fixpoint concat_opt (l : list (option (list N))) : option (list N) :=
-  match l with
-  | [] => Some []
-  | None :: _ => None
-  | Some x :: t => match concat_opt t with Some y => Some (x ++ y) | None => None end
-  end.
-
-Fixpoint null_run (n : nat) : list N := match n with O => [] | S m => s_null ++ [32] ++ null_run m end.
-
-(* sparse array: holes print as "null " *)
-Fixpoint sparse_parts (pr : iloc -> option (list N)) (els : list (nat * iloc)) (next size : nat) : list (option (list N)) :=
-  match els with
-  | [] => [Some (null_run (size - next))]
-  | (k, e) :: t => Some (null_run (k - next)) :: (match pr e with Some s => Some (s ++ [32]) | None => None end)
-                   :: sparse_parts pr t (S k) size
-  end.
-
-(* None = the call throws std::logic_error (reserved / destroyed object) *)
-Fixpoint unparse_res (fuel : nat) (w : world) (l : iloc) : option (list N) :=
-  match fuel with
-  | O => None
-  | S f =>
-    let item e := if cog w e =? 0 then unparse_res f w e else Some (s_ref (cog w e)) in
-    match cval w l with
-    | HNull => Some s_null
-    | HBool b => Some (if b then s_true else s_false)
-    | HInt z => Some (dec_of_Z z)
-    | HName k => Some [47; k]
-    | HArr els =>
-      match concat_opt (map (fun e => match item e with Some s => Some (s ++ [32]) | None => None end) els) with
-      | Some s => Some ([91; 32] ++ s ++ [93])
-      | None => None
-      end
-    | HSparse sz els =>
-      match concat_opt (sparse_parts item els O sz) with
-      | Some s => Some ([91; 32] ++ s ++ [93])
-      | None => None
-      end
-    | HDict items =>
-      match concat_opt (map (fun kv => if is_null_h w (snd kv) then Some []
-                                       else match item (snd kv) with
-                                            | Some s => Some ([47; fst kv; 32] ++ s ++ [32])
-                                            | None => None
-                                            end) items) with
-      | Some s => Some ([60; 60; 32] ++ s ++ [62; 62])
-      | None => None
-      end
-    | HRef _ => Some (s_ref (cog w l))
-    | HReserved => None
-    | HDestroyed => None
-    end
-  end.
-
-Definition unp_fuel : nat := 16.
+(* ---------------------------------------------------------------- what a caller can see *)
 Definition unparse_h (w : world) (l : iloc) : option (list N) :=
   if cog w l =? 0 then unparse_res unp_fuel w l else Some (s_ref (cog w l)).
 Definition show (o : option (list N)) : list N := match o with Some s => s | None => [33; 76] end.   (* "!L" *)
